@@ -199,31 +199,38 @@ Definition complete (w : world) : world :=
 Definition writer_body (f : fmt) (sh : list sop) (g : nat) (w : world) : res :=
   match f with
   | Zip =>
-      andthen (prim TTmpdir tmp_inc w) (fun w =>           (* tempfile.TemporaryDirectory() *)
       andthen (prim (TMkdir true) noeff w) (fun w =>         (* work_dir.mkdir *)
       let w := set_flag true w in
       andthen (prim TMkroot noeff w) (fun w =>
       andthen (run_shape Zip sh w) (fun w =>
       if is_dir (slot (fs w) 0) then Raised w                (* IOError: existing directory *)
-      else prim (TMove 0) (set_slot 0 (Good g Zip 1)) w))))
+      else prim (TMove 0) (set_slot 0 (Good g Zip 1)) w)))
   | Dir =>
       let w := set_flag true w in
       andthen (prim (TMkdir (negb (present (slot (fs w) 0)))) (mkroot_dir g) w) (fun w =>
       andthen (run_shape Dir sh w) (fun w => Done (complete w)))
   end.
 
+(** [finally:] flags reset, then (zip) [tempdir.cleanup()] *)
 Definition writer_fin (f : fmt) (w : world) : res :=
   let w := set_flag false w in
   match f with
-  | Zip => match tmps w with
-           | 0 => Raised w          (* UnboundLocalError: tempdir *)
-           | _ => unwind w          (* tempdir.cleanup() *)
-           end
+  | Zip => unwind w
   | Dir => Done w
   end.
 
-Definition writer (f : fmt) (sh : list sop) (g : nat) : world -> res :=
-  try_finally (writer_body f sh g) (writer_fin f).
+Definition writer (f : fmt) (sh : list sop) (g : nat) (w : world) : res :=
+  match f with
+  | Zip =>
+      (* [tempdir = tempfile.TemporaryDirectory()] is the first statement of the try
+         block: if it raises, [finally] resets the flags and then fails itself
+         (UnboundLocalError: tempdir) -- still an exception, nothing else happened *)
+      match prim TTmpdir tmp_inc w with
+      | Raised w' => Raised (set_flag false w')
+      | Done w1 => try_finally (writer_body Zip sh g) (writer_fin Zip) w1
+      end
+  | Dir => try_finally (writer_body Dir sh g) (writer_fin Dir) w
+  end.
 
 (** [serialize.write_model]: rotate, then write *)
 Definition write_model (maxb : nat) (f : fmt) (sh : list sop) (g : nat) (w : world) : res :=
@@ -279,10 +286,9 @@ Definition reader (t : nat) (f : fmt) (sh : list sop) (w : world) : res :=
     andthen (prim TROpen noeff w) (fun w =>
     andthen (prim TRFill noeff w) (fun w =>
     run_shape f sh (rename_new u t w)))) in
-  match body w with
-  | Done w' => try_finally unwind (fun w => Done (set_flag false w)) w'
-  | Raised w' =>
-      let w1 := wof (unwind w') in                 (* the [with] block exits first *)
+  match try_finally body unwind w with          (* the [with] block exits inside the [try] *)
+  | Done w' => Done (set_flag false w')
+  | Raised w1 =>
       let w2 := if Nat.eqb (nuid w1) u then w1     (* self.model is still None *)
                 else abandon u t renamed w1 in     (* undoing a rename that did not happen is a no-op *)
       Raised (set_flag false w2)
